@@ -649,6 +649,84 @@ def c08_4(ctx: Ctx) -> RuleResult:
                         continue
                     g_ = bool_nnf(("bool", "and", tuple(c if p else ("unary", "not", c) for c, p in pc) + tuple(a if p else ("unary", "not", a) for a, p in conds))) if (pc or conds) else ("lit", ("const", True), True)
                     keyed.setdefault(leaf[1], []).append((st_, nnf_literals(g_) if g_[0] in ("and", "lit") else []))
+        # the limit wins: nothing merged into the returned dict after the store can replace the entry (the user's own
+        # `maxiter` entry is documented to be overridden by max_iterations)
+        is_limit = lambda v: ends_with_attrs(v, "optimizer", "max_iterations")  # noqa: E731
+        LIMIT_KEYS = {"maxiter", "maxfun"}
+
+        def has_store(t) -> bool:
+            return contains(t, lambda s_: s_[0] == "update" and is_limit(s_[4])) or contains(
+                t, lambda s_: s_[0] == "dict" and any(is_limit(v_) for _k, v_ in s_[1]))
+
+        def key_consts(kt):
+            """the constant keys a key term can take (None: unknown)"""
+            if kt[0] == "const":
+                return {kt[1]}
+            if kt[0] == "ifexp":
+                a_, b_ = key_consts(kt[2]), key_consts(kt[3])
+                return None if a_ is None or b_ is None else a_ | b_
+            if kt[0] == "phi":
+                outs_ = [key_consts(x) for x in kt[1]]
+                return None if any(o is None for o in outs_) else set().union(*outs_)
+            return None
+
+        def harmless(t) -> bool:
+            """a dict that certainly has no iteration-limit entry"""
+            if t[0] == "dict":
+                return all(k_[0] != "star" and (key_consts(k_) or {None}).isdisjoint(LIMIT_KEYS | {None}) or (k_[0] == "star" and harmless(v_)) for k_, v_ in t[1])
+            if t[0] == "update":
+                kc = key_consts(t[3])
+                return kc is not None and kc.isdisjoint(LIMIT_KEYS) and harmless(t[1])
+            if t[0] == "phi":
+                return all(harmless(x) for x in t[1])
+            return False
+
+        def wins(t, depth: int = 0) -> bool:
+            if depth > 40 or not has_store(t):
+                return True
+            if t[0] == "phi":
+                return all(wins(x, depth + 1) for x in t[1])
+            if t[0] == "update":
+                if is_limit(t[4]):
+                    return True
+                kc = key_consts(t[3])
+                return kc is not None and kc.isdisjoint(LIMIT_KEYS) and wins(t[1], depth + 1)
+            if t[0] == "binop" and t[1] == "|":
+                if has_store(t[3]):
+                    return wins(t[3], depth + 1)
+                return harmless(t[3]) and wins(t[2], depth + 1)
+            if t[0] == "mut" and t[2] == "update":
+                arg = t[3][2][0] if t[3][0] == "call" and len(t[3][2]) == 1 else None
+                if arg is not None and has_store(arg):
+                    return wins(arg, depth + 1)
+                return arg is not None and harmless(arg) and wins(t[1], depth + 1)
+            if t[0] == "dict":
+                later_ok = True
+                for k_, v_ in reversed(t[1]):
+                    if k_[0] == "star":
+                        if has_store(v_):
+                            return later_ok and wins(v_, depth + 1)
+                        later_ok = later_ok and harmless(v_)
+                    else:
+                        if is_limit(v_):
+                            return later_ok
+                        kc = key_consts(k_)
+                        later_ok = later_ok and kc is not None and kc.isdisjoint(LIMIT_KEYS)
+                return True
+            if t[0] == "call" and t[1] in (("builtin", "dict"), ("global", "copy.deepcopy"), ("global", "copy.copy")) and len(t[2]) == 1 and not t[3]:
+                return wins(t[2][0], depth + 1)
+            if t[0] == "call" and t[1][0] == "attr" and t[1][2] == "copy" and not t[2]:
+                return wins(t[1][1], depth + 1)
+            return False
+
+        for r_ in rets:
+            if r_ in live and r_.ast.value is not None:
+                rt_ = ctx.X.at(f, r_.ast.value)
+                if has_store(rt_):
+                    ok = wins(rt_)
+                    res.add(f, r_.ast, "nothing merged into the returned options after the limit was stored can replace it (max_iterations overrides a user-supplied maxiter)", ok,
+                            "" if ok else "the limit is stored first and the user's options are merged over it afterwards: a `maxiter` / `maxfun` entry of the options dict wins over max_iterations",
+                            construct="limit wins over user options")
         ok = "maxiter" in keyed
         res.add(f, keyed["maxiter"][0][0] if ok else f.node, "max_iterations is stored as `maxiter`", ok, "" if ok else "no options['maxiter'] = max_iterations", construct="maxiter store")
         ok = "maxfun" in keyed
